@@ -18,7 +18,7 @@ WritePaths == {"writer", "writer-appended", "export", "export-filtered", "compre
 \* "index": the index is a permutation (reversed); "indexoffset": consecutive
 \* values that do not start at 1 (a fragment cut out of a larger file)
 Corruptions == {"len", "roi", "unknown", "missing", "index", "indexoffset", "chcount", "lasers",
-                "samples", "extlink", "flowzero", "pixneg", "chwzero"}
+                "samples", "extlink", "flowzero", "pixneg", "chwzero", "flmissing"}
 \* corruptions of the metadata survive a copy of the file - except for the keys
 \* that the writer derives from the data whenever it closes a file (ROI size,
 \* samples per event): a copy repairs those, which is not held against it
@@ -26,7 +26,7 @@ MetaCorruptions == {"missing", "chcount", "lasers", "flowzero", "pixneg", "chwze
 Class(c) == CASE c = "len" -> "feature length differs from the event count"
               [] c = "roi" -> "image size contradicts the ROI metadata"
               [] c = "unknown" -> "unknown feature"
-              [] c = "missing" -> "mandatory metadata missing"
+              [] c \in {"missing", "flmissing"} -> "mandatory metadata missing"
               [] c \in {"index", "indexoffset"} -> "index does not enumerate the events"
               [] c = "chcount" -> "fluorescence channel count contradicts the data"
               [] c = "lasers" -> "laser count contradicts the metadata"
@@ -39,7 +39,11 @@ Class(c) == CASE c = "len" -> "feature length differs from the event count"
 ImageShaped == {"image", "image_bg", "mask"}
 FullContent == {"image", "mask"}
 
-VARIABLES path, corr, copied, content
+\* which fluorescence channel the measurement used ("fl1": channel 1 with
+\* traces, the default; "fl2" / "fl3": that channel's maximum only)
+FlChannels == {"fl1", "fl2", "fl3"}
+
+VARIABLES path, corr, copied, content, fl
 
 Init == /\ path \in WritePaths
         /\ corr \in {S \in SUBSET Corruptions : Cardinality(S) <= 2}
@@ -51,6 +55,11 @@ Init == /\ path \in WritePaths
               /\ corr \subseteq {"roi", "len", "unknown"}
               /\ copied = "no"
               /\ path \in {"writer", "export", "export-filtered", "compress", "split-part"}
+        /\ fl \in FlChannels
+        /\ fl # "fl1" =>
+              /\ corr \subseteq {"chcount", "lasers", "flmissing"} /\ corr # {}
+              /\ copied = "no" /\ content = FullContent
+              /\ path \in {"writer", "export", "compress"}
         \* an ROI contradiction needs image-shaped data
         /\ ("roi" \in corr) => content # {}
         \* corruptions need the respective data: a condensed file has no image / trace
@@ -59,12 +68,12 @@ Init == /\ path \in WritePaths
         \* two corruptions of the same key do not both show
         /\ ~({"chwzero", "missing"} \subseteq corr)
         /\ ~({"index", "indexoffset"} \subseteq corr)
-Next == UNCHANGED <<path, corr, copied, content>>
+Next == UNCHANGED <<path, corr, copied, content, fl>>
 
 ExpectedClasses == {Class(c) : c \in corr}
 Closure == corr = {} => ExpectedClasses = {}
 
 Emit == PrintT(<<"H", ToJson([path |-> path, corr |-> corr, copied |-> copied,
-                              content |-> content,
+                              content |-> content, fl |-> fl,
                               expected |-> ExpectedClasses])>>)
 =============================================================================
